@@ -24,7 +24,9 @@ package main
 import (
 	"bytes"
 	"compress/gzip"
+	"encoding/binary"
 	"fmt"
+	"io"
 	"strings"
 	"time"
 
@@ -60,11 +62,13 @@ func (o out) String() string {
 func (o out) final() bool { return o.kind != "p" && o.kind != "err" }
 
 type result struct {
-	open string // non-empty: NewReader failed with this outcome
-	lt   int
-	snap uint32
-	ns   bool
-	outs []out
+	maxAlloc uint64 // largest allocation predicted by the shadow walk
+	suspect  bool   // the cheap allocation counter exceeded the bound: confirm with the exact one
+	open     string // non-empty: NewReader failed with this outcome
+	lt       int
+	snap     uint32
+	ns       bool
+	outs     []out
 }
 
 func (r result) String() string {
@@ -152,7 +156,11 @@ func (s *shadow) next(zc bool, snap uint32) uint64 {
 	return alloc
 }
 
-const hugeAlloc = 1 << 28
+const hugeAlloc = 1 << 24
+
+// allocSlack: the runtime's allocation counter is flushed per span, so a delta can contain
+// up to a few hundred KiB of earlier small allocations; the "+ const" of the property.
+const allocSlack = 1 << 18
 
 type readCfg struct {
 	stream  []byte // bytes delivered to NewReader
@@ -163,6 +171,7 @@ type readCfg struct {
 	chunk   func() int
 	sticky  bool
 	monitor bool // C15 per-call monitors (base run only)
+	precise bool // confirmation run: exact allocation counters, allocation monitor only
 }
 
 var lastSite, lastMsg string
@@ -180,21 +189,37 @@ func protect(f func()) (string, bool) {
 }
 
 func runRead(c readCfg) result {
+	res := runRead1(c)
+	if res.suspect && !c.precise {
+		c.precise = true
+		runRead1(c)
+	}
+	return res
+}
+
+func runRead1(c readCfg) result {
+	allocated := strm.Allocated
+	if c.precise {
+		allocated = strm.AllocatedPrecise
+	}
 	st := &strm.Stream{Data: c.stream, Fail: c.fail, Chunk: c.chunk, Sticky: c.sticky}
 	var res result
 	var r *pcapgo.Reader
 	var err error
-	a0 := strm.Allocated()
+	a0 := allocated()
 	rep, panicked := protect(func() { r, err = pcapgo.NewReader(st) })
-	a1 := strm.Allocated()
+	a1 := allocated()
 	if panicked {
 		res.open = rep
-		if c.monitor {
+		if c.monitor && !c.precise {
 			lib.Finding("C15", sigSite("pcap"), "NewReader panicked: "+lastMsg)
 		}
 		return res
 	}
-	if c.monitor && a1-a0 > uint64(len(c.stream))+(1<<17) {
+	if c.monitor && a1-a0 > uint64(len(c.stream))+allocSlack {
+		res.suspect = true
+	}
+	if c.monitor && c.precise && a1-a0 > uint64(len(c.stream))+allocSlack {
 		lib.Finding("C15", "pcap:alloc:NewReader", fmt.Sprintf("NewReader allocated %d bytes for a %d-byte stream", a1-a0, len(c.stream)))
 	}
 	if err != nil {
@@ -212,14 +237,20 @@ func runRead(c readCfg) result {
 			}
 		}
 		zc := c.pat[i%len(c.pat)] == 'z'
-		if sh.next(zc, r.Snaplen()) > hugeAlloc {
+		pa := sh.next(zc, r.Snaplen())
+		if pa > hugeAlloc {
 			res.outs = append(res.outs, out{kind: "huge"})
-			lib.Stat("read:huge-skipped")
+			if c.monitor && !c.precise {
+				lib.Stat("read:huge-skipped")
+			}
 			break
+		}
+		if pa > res.maxAlloc {
+			res.maxAlloc = pa
 		}
 		var data []byte
 		var ci gopacket.CaptureInfo
-		b0 := strm.Allocated()
+		b0 := allocated()
 		rep, panicked := protect(func() {
 			if zc {
 				data, ci, err = r.ZeroCopyReadPacketData()
@@ -227,21 +258,24 @@ func runRead(c readCfg) result {
 				data, ci, err = r.ReadPacketData()
 			}
 		})
-		b1 := strm.Allocated()
+		b1 := allocated()
 		if panicked {
 			res.outs = append(res.outs, out{kind: rep})
-			if c.monitor {
+			if c.monitor && !c.precise {
 				lib.Finding("C15", sigSite("pcap"), "read call panicked: "+lastMsg)
 			}
 			break
 		}
-		if c.monitor && b1-b0 > uint64(len(c.stream))+uint64(r.Snaplen())+(1<<17) {
+		if c.monitor && b1-b0 > uint64(len(c.stream))+uint64(r.Snaplen())+allocSlack {
+			res.suspect = true
+		}
+		if c.monitor && c.precise && b1-b0 > uint64(len(c.stream))+uint64(r.Snaplen())+allocSlack {
 			lib.Finding("C15", "pcap:alloc:read", fmt.Sprintf("read call allocated %d bytes; stream %d bytes, snaplen %d", b1-b0, len(c.stream), r.Snaplen()))
 		}
 		k := strm.Classify(err)
 		if k == "ok" {
 			o := out{kind: "p", sec: ci.Timestamp.Unix(), nsec: ci.Timestamp.Nanosecond(), caplen: ci.CaptureLength, length: ci.Length, data: append([]byte(nil), data...)}
-			if c.monitor {
+			if c.monitor && !c.precise {
 				if len(data) != ci.CaptureLength {
 					lib.Finding("C15", "pcap:datalen", fmt.Sprintf("returned %d bytes with CaptureLength %d", len(data), ci.CaptureLength))
 				}
@@ -253,7 +287,7 @@ func runRead(c readCfg) result {
 			res.outs = append(res.outs, o)
 			continue
 		}
-		if c.monitor {
+		if c.monitor && !c.precise {
 			lib.Stat("read:" + k)
 		}
 		o := out{kind: k}
@@ -280,7 +314,8 @@ func sameOuts(a, b []out) bool {
 // chunkingAndErrors: C15 run-time monitors on a complete plain read.
 func chunkingAndErrors(c readCfg, base result) {
 	baseStr := base.String()
-	if strings.Contains(baseStr, "huge") {
+	if strings.Contains(baseStr, "huge") || base.maxAlloc > 1<<16 {
+		lib.Stat("mon:skipped-large-buffers")
 		return
 	}
 	mx := strm.NewMix(c.stream, uint64(len(c.pat)))
@@ -308,13 +343,21 @@ func chunkingAndErrors(c readCfg, base result) {
 	// injected I/O error after p bytes
 	var positions []int
 	n := len(c.stream)
-	if n <= 96 {
+	if n <= 96 && base.maxAlloc <= 4096 {
 		for p := 0; p <= n; p++ {
 			positions = append(positions, p)
 		}
 	} else {
-		positions = append(positions, 0, 1, 2, 23, 24, 25, 39, 40, 41, n-1, n)
-		for i := 0; i < 16; i++ {
+		for _, p := range []int{0, 1, 2, 23, 24, 25, 39, 40, 41, n - 1, n} {
+			if p >= 0 && p <= n {
+				positions = append(positions, p)
+			}
+		}
+		extra := 12
+		if base.maxAlloc > 4096 {
+			extra = 2 // every rerun allocates the large zero-copy buffer again
+		}
+		for i := 0; i < extra; i++ {
 			positions = append(positions, mx.Intn(n+1))
 		}
 	}
@@ -362,6 +405,13 @@ func gzipBytes(b []byte) []byte {
 func gzipMonitors(plain, gz []byte, pat string) {
 	mx := strm.NewMix(gz, 77)
 	try := func(stream []byte, what string) {
+		// what the reader will see: skip variants declaring a large snap length (protective cap)
+		if zr, err := gzip.NewReader(bytes.NewReader(stream)); err == nil {
+			seen, _ := io.ReadAll(io.LimitReader(zr, 1<<16))
+			if len(seen) >= 20 && (binary.LittleEndian.Uint32(seen[16:20]) > 1<<20 || binary.BigEndian.Uint32(seen[16:20]) > 1<<20) {
+				return
+			}
+		}
 		st := &strm.Stream{Data: stream}
 		_, panicked := protect(func() {
 			r, err := pcapgo.NewReader(st)
@@ -519,6 +569,10 @@ func monitorC14(ns bool, snaplen uint32, lt uint16, ps []wpkt, flags string) {
 		exp = append(exp, out{kind: "p", sec: p.sec, nsec: nsec, caplen: int(p.caplen), length: int(p.length), data: p.data})
 		offs = append(offs, offs[len(offs)-1]+16+len(p.data))
 	}
+	if snaplen > hugeAlloc {
+		lib.Stat("c14:skip-huge-snaplen")
+		return
+	}
 	file := curFile
 	if len(file) != offs[len(offs)-1] {
 		lib.Finding("C14", "pcap:write-size", fmt.Sprintf("file has %d bytes, expected %d", len(file), offs[len(offs)-1]))
@@ -549,6 +603,8 @@ func monitorC14(ns bool, snaplen uint32, lt uint16, ps []wpkt, flags string) {
 		pat := []string{"c", "z", "zc"}[ci%3]
 		if k == len(file) {
 			pat = []string{"c", "z"}[ci%2]
+		} else if snaplen > 4096 && ci%8 != 0 {
+			pat = "c" // a zero-copy reader allocates snaplen bytes per instance
 		}
 		res := runRead(readCfg{stream: file[:k], plain: file[:k], pat: pat})
 		want := 0
